@@ -88,6 +88,10 @@ def cases(draw, names=None):
     if name == "multi_matmul" and len(base) != 2:
         base = [draw(st.integers(1, 3)), draw(st.integers(1, 3))]
     nleaves = draw(st.integers(1, 3))
+    # operand values inside the op's domain on BOTH sides of zero (the smooth domain fix-ups only produce positives)
+    dom0 = OPS[name].dom[0] if name in OPS and STEP_OF.get(name) is gen.step_unary and OPS[name].dom else "any"
+    leaf_kw = {"absgt1": {"band": (20, 48)}, "nonzero": {"band": (3, 48)}, "nz_small": {"band": (3, 44)}, "unit": {"lo": -13, "hi": 13},
+               "pos": {"lo": 4, "hi": 48}, "gt1": {"lo": 20, "hi": 48}}.get(dom0, {})
     for i in range(nleaves):
         kind = draw(st.sampled_from(["var", "var", "var", "const", "array", "scalar", "intarray"])) if i else "var"
         shape = list(base) if i == 0 else ([] if kind == "scalar" else shape_variant(draw, base))
@@ -96,6 +100,8 @@ def cases(draw, names=None):
             layout = None
         if kind == "scalar":
             b.scalar_leaf()
+        elif kind in ("var", "const", "array"):
+            b.leaf(kind, shape, layout=layout, **leaf_kw)
         else:
             b.leaf(kind, shape, layout=layout)
     step = STEP_OF[name]
